@@ -9,7 +9,7 @@ def run(chk, tier):
     chk.explain('K3 decision tables extracted by path-sensitive abstract interpretation of the MIR of teardown, '
                 'Drop::drop, verify, no_verify_in_drop, teardown_panic, teardown_report, Clone::clone, from_assembler, '
                 'new/new_partial and Termination::report, compared with the lifecycle tables transcribed from the property.')
-    for cfg in configs(tier, quick=('std', 'nostd'), thorough=('std', 'mocks', 'nostd-spin', 'nostd')):
+    for cfg in configs(tier, quick=('std', 'nostd', 'mocks'), thorough=('std', 'mocks', 'nostd-spin', 'nostd')):
         F = load(chk, cfg)
         fn, paths, rows = L.teardown_table(chk, F, 'R09.teardown', cfg)
         L.teardown_pre_effects(chk, F, 'R09.pre', cfg, fn, paths)
